@@ -180,6 +180,9 @@ theorem decoded_is_valid (r : RawInstance) (i : Instance) (h : decodeInstance r 
         · rename_i k' hk'; cases hd; exact parseKey_proper _ _ hk'
         · cases hd
 
+/-- the key pattern the model's `parseKey` implements is the one in op/key.go (regenerated on every run) -/
+theorem key_pattern_modelled : Crd.Generated.keyRegexSource = "([A-G])([#b♯♭]?)(m?)" := by decide
+
 /-! non-vacuity -/
 def exInst : Instance :=
   { chord := some ⟨⟨13, .minor⟩, "m7b5", some ⟨3, .major⟩⟩
